@@ -18,6 +18,7 @@ mod rwlock;
 mod robs_map;
 mod robs_set;
 mod transport;
+mod watch;
 
 use std::io::Write;
 
@@ -194,6 +195,7 @@ fn main() {
         "handle" => handle::run(seed, count, &extra, &mut out),
         "lazy" => lazy::run(seed, count, &extra, &mut out),
         "rwlock" => rwlock::run(seed, count, &extra, &mut out),
+        "watch" => watch::run(seed, count, &extra, &mut out),
         _ => {
             eprintln!("unknown component {comp}");
             std::process::exit(2);
